@@ -13,6 +13,8 @@ import Mamba.Lemmas.C06Induced3
 import Mamba.Lemmas.C06BiKneser
 import Mamba.Lemmas.C06Prufer
 import Mamba.Lemmas.C06Multi2
+import Mamba.Lemmas.C06Tseq
+import Mamba.Lemmas.C06PruferTree
 /-!
 # C06 — every graph the library constructs is well formed and matches its definition
 
@@ -274,7 +276,7 @@ theorem contract_spec (g : G) (hg : g.WF) (i j : Nat) (hi : i < g.n) :
     contract g i j = Families.contract g i j :=
   contract_ok g hg i j hi
 
-/-! ## The `InducedSubgraph` view; decoders and `RandomTree` (partial) -/
+/-! ## The `InducedSubgraph` view; decoders and `RandomTree` -/
 
 /-- The `InducedSubgraph` view over a duplicate-free in-range vertex list `V`: every observer (`N`, `M`, `IsEdge`,
 `Neighbours` — ascending, without repeats — and `Degrees`) is a function of the underlying graph, and together they
@@ -287,24 +289,25 @@ theorem inducedView_spec (g : GraphI) (gs : G) (hs : g.Sound gs) (hw : gs.WF) (V
 example : (inducedView (newDenseNil 3).toI [2, 0]).Sound ((newDenseNil 3).abs.induced [2, 0]) :=
   inducedView_spec _ _ (newDenseNil_wf 3).1.sound (Dense.abs_wf _ (newDenseNil_wf 3).1.size_edges) [2, 0] (by decide) (by decide)
 
-/-- `PruferDecode(p)` for every code whose entries are vertices (`< len(p) + 2`): no panic (the leaf found by the scan is
-never the current code entry, so every index is in range) and the result is a well-formed graph on `len(p) + 2`
-vertices. Full statement wanted: … and it is the tree with Prüfer code `p`. Missing: tree-ness / the round trip, which
-the oracle checks on every generated code (`c06IsTree`, `c06Prufer`). -/
-theorem pruferDecode_wf_partial (p : List Nat) (hp : ∀ v ∈ p, v < p.length + 2) :
-    ∃ d, pruferDecode p = .ok d ∧ d.WF ∧ d.n = p.length + 2 :=
-  pruferDecode_ok p hp
+/-- `PruferDecode(p)` for every code whose entries are vertices (`< len(p) + 2`): no panic, the result is well formed
+and it is a labelled tree on `len(p) + 2` vertices (`Codec.IsTree`: `n - 1` edges and connected).
+Proved by showing that this model computes the same byte array as the C07 model `Codec.pruferDecode`
+(`pruferDecode_sim`) and reusing `Codec.prufer_decode_tree`. -/
+theorem pruferDecode_spec (p : List Nat) (hp : ∀ v ∈ p, v < p.length + 2) :
+    ∃ d, pruferDecode p = .ok d ∧ d.WF ∧ d.n = p.length + 2 ∧ Codec.IsTree d.abs :=
+  pruferDecode_tree p hp
 
-example : ∃ d, pruferDecode [3, 3, 0] = .ok d ∧ d.WF ∧ d.n = 5 := pruferDecode_wf_partial [3, 3, 0] (by decide)
+example : ∃ d, pruferDecode [3, 3, 0] = .ok d ∧ d.WF ∧ d.n = 5 ∧ Codec.IsTree d.abs :=
+  pruferDecode_spec [3, 3, 0] (by decide)
 
-/-- `RandomTree(n, seed)`, `n ≥ 2`, for **every** stream of draws `r.Intn(n) < n`: no panic, a well-formed graph on `n`
-vertices (same gap as `pruferDecode_wf_partial`: connectedness with `n-1` edges is checked by the oracle over many seeds). -/
-theorem randomTree_wf_partial (n : Nat) (hn : 2 ≤ n) (draw : Nat → Nat) (hdraw : ∀ i, draw i < n) :
-    ∃ d, randomTree n draw = .ok d ∧ d.WF ∧ d.n = n :=
-  randomTree_ok n hn draw hdraw
+/-- `RandomTree(n, seed)`, `n ≥ 2`, for **every** stream of draws `r.Intn(n) < n`: no panic, a well-formed labelled tree
+on `n` vertices. -/
+theorem randomTree_spec (n : Nat) (hn : 2 ≤ n) (draw : Nat → Nat) (hdraw : ∀ i, draw i < n) :
+    ∃ d, randomTree n draw = .ok d ∧ d.WF ∧ d.n = n ∧ Codec.IsTree d.abs :=
+  randomTree_tree n hn draw hdraw
 
-example : ∃ d, randomTree 4 (fun _ => 3) = .ok d ∧ d.WF ∧ d.n = 4 :=
-  randomTree_wf_partial 4 (by decide) _ (fun _ => by decide)
+example : ∃ d, randomTree 4 (fun _ => 3) = .ok d ∧ d.WF ∧ d.n = 4 ∧ Codec.IsTree d.abs :=
+  randomTree_spec 4 (by decide) _ (fun _ => by decide)
 
 /-- `RandomTree(n)` for `n < 2` dies in `make([]int, n-2)` -/
 theorem randomTree_small (n : Nat) (hn : n < 2) (draw : Nat → Nat) : randomTree n draw = .panic := by
@@ -320,5 +323,25 @@ theorem multicodeDecode_spec (gs : G) (hg : gs.WF) :
 
 example : ∃ d, multicodeDecode (multicodeOf (Families.cycle 3)) = .ok d ∧ d.WF ∧ d.abs = Families.cycle 3 :=
   multicodeDecode_spec _ (symm_wf _ _)
+
+/-! ## Sequences of `Contract` / `SplitEdge` applied in place -/
+
+/-- every graph produced along a sequence of `Contract` / `SplitEdge` steps (as the definitions prescribe them) is a
+well-formed abstract graph, whatever the start graph and the arguments -/
+theorem tseq_spec (ops : List TOp) (g : G) (gs : List G) (e : tseq tstepSpec g ops = .ok gs) : ∀ h ∈ gs, h.WF :=
+  tseq_wf_all ops g gs e
+
+/-- along every valid sequence (arguments are vertices of the current graph, distinct for `SplitEdge`) the steps as the
+code performs them (`RemoveEdge; AddVertex` resp. `AddEdge…; RemoveVertex`) produce exactly the prescribed graphs -/
+theorem tseq_model_refines (ops : List TOp) (g : G) (hg : g.WF) (hv : ValidSeq g ops) :
+    tseq tstepModel g ops = tseq tstepSpec g ops :=
+  tseq_refines ops g hg hv
+
+example : tseq tstepModel (Families.complete 5) [TOp.c 0 1, TOp.s 0 1] = tseq tstepSpec (Families.complete 5) [TOp.c 0 1, TOp.s 0 1] :=
+  tseq_model_refines _ _ (symm_wf _ _) (by
+    refine ⟨⟨by decide, by decide⟩, ?_⟩
+    intro h e; simp only [tstepSpec, Outcome.ok.injEq] at e; subst e
+    refine ⟨⟨by decide, by decide, by decide⟩, ?_⟩
+    intro h e; trivial)
 
 end Construct
